@@ -1,6 +1,8 @@
 """C09 — free energy is -kT ln(probability) and stays finite."""
 from __future__ import annotations
 
+import warnings
+
 import numpy as np
 
 from .. import geom
@@ -18,6 +20,7 @@ RULE = (
     '= SHA-1 of (grid, temperature).'
 )
 RULE += ' Added in rounds 6-8: nearly normalised densities; -0.0 voxels; another temperature asked of the same Volume; result retention.'
+RULE += ' Round 13: the call is made under different floating-point error states and warning filters of the caller (np.errstate / np.seterr ignore, warnings ignored / recorded).'
 ASSUMPTIONS = ['k_B = 1.380649e-23 / 1.602176634e-19 eV/K (exact SI); relative tolerance 1e-9']
 N_CASES = {'quick': 640, 'thorough': 100000}
 BUDGET_S = {'quick': 200, 'thorough': 3600}
@@ -113,7 +116,31 @@ def run_unit(unit, rng, ctx):
     temp = float(np.exp(rng.uniform(np.log(1e-3), np.log(1e6))))
     what = f'grid {data.shape} mode={mode} T={temp:.4g} K'
     wit = {'data': data, 'temperature': temp}
-    F = vol.get_free_energy(temperature=temp)
+    # the floating-point error state and the warning filters of the calling script are part of the environment: numpy's
+    # log(0) warning may be silenced (np.errstate / np.seterr 'ignore'), shown always, or the call may sit in a
+    # catch_warnings block of the caller; the grid must be the same finite grid in each
+    env_mode = ['default', 'default', 'errstate_ignore', 'seterr_all_ignore', 'warnings_ignored', 'warnings_recorded'][int(rng.integers(6))]
+    if env_mode == 'errstate_ignore':
+        with np.errstate(divide='ignore', invalid='ignore'):
+            F = vol.get_free_energy(temperature=temp)
+    elif env_mode == 'seterr_all_ignore':
+        old_err = np.seterr(all='ignore')
+        try:
+            F = vol.get_free_energy(temperature=temp)
+        finally:
+            np.seterr(**old_err)
+    elif env_mode == 'warnings_ignored':
+        with warnings.catch_warnings():
+            warnings.simplefilter('ignore')
+            F = vol.get_free_energy(temperature=temp)
+    elif env_mode == 'warnings_recorded':
+        with warnings.catch_warnings(record=True):
+            warnings.simplefilter('always')
+            F = vol.get_free_energy(temperature=temp)
+    else:
+        F = vol.get_free_energy(temperature=temp)
+    ctx.count(f'caller_environment:{env_mode}')
+    what += '' if env_mode == 'default' else f' [{env_mode}]'
     Fd = np.asarray(F.data)
     visited = data > 0
     p = data / data.sum()
